@@ -120,6 +120,8 @@ def as_int(v):
 
 OPS_TRAITS = {'std::ops::BitOr': ('bitor', 'BitOr'), 'std::ops::BitAnd': ('bitand', 'BitAnd'), 'std::ops::BitXor': ('bitxor', 'BitXor'),
               'std::ops::Add': ('add', 'Add'), 'std::ops::Sub': ('sub', 'Sub'), 'std::ops::Mul': ('mul', 'Mul')}
+OPS_ASSIGN_TRAITS = {'std::ops::BitOrAssign': ('bitor_assign', 'BitOr'), 'std::ops::BitAndAssign': ('bitand_assign', 'BitAnd'), 'std::ops::BitXorAssign': ('bitxor_assign', 'BitXor'),
+                     'std::ops::AddAssign': ('add_assign', 'Add'), 'std::ops::SubAssign': ('sub_assign', 'Sub'), 'std::ops::MulAssign': ('mul_assign', 'Mul')}
 PRIM_INTS = ('u8', 'u16', 'u32', 'u64', 'u128', 'usize', 'i8', 'i16', 'i32', 'i64', 'i128', 'isize')
 
 
@@ -175,6 +177,19 @@ def _std_transfer(I, fr, t, c, pth):
             if isinstance(a_, Ref):
                 a_ = fr._project(fr.store.get(a_.root, TOP), a_.proj)
         I._assign(fr, {'k': 'assign', 'place': dest, 'rv': {'k': 'binop', 'op': OPS_TRAITS[trait][1], 'a': ['v', a_], 'b': ['v', b_]}})
+        return True
+    if trait in OPS_ASSIGN_TRAITS and name == OPS_ASSIGN_TRAITS[trait][0] and len(args) == 2 and (c.get('self_ty') or '') in PRIM_INTS:
+        # `*acc ^= b` with b: &u8 (or u8): a call on primitive integers too
+        a_, b_ = fr.deref_operand(args[0]), fr.operand(args[1])
+        for _ in range(2):
+            if isinstance(b_, Ref):
+                b_ = fr._project(fr.store.get(b_.root, TOP), b_.proj)
+            if isinstance(a_, Ref):
+                a_ = fr._project(fr.store.get(a_.root, TOP), a_.proj)
+        tmp_ = {'l': -7, 'p': []}
+        I._assign(fr, {'k': 'assign', 'place': tmp_, 'rv': {'k': 'binop', 'op': OPS_ASSIGN_TRAITS[trait][1], 'a': ['v', a_], 'b': ['v', b_]}})
+        fr.store_through(args[0], fr.store.pop(-7, TOP))
+        fr.storev(dest, Agg([]))
         return True
 
     # ------------------------------------------------------------------ closures called directly
